@@ -83,6 +83,8 @@ def eq(x, y):
             return eq(xkey, ykey) and eq(xval, yval)
         else:
             return False
+    elif isinstance(y, (tuple, list, dict, np.ndarray, pd.DataFrame, pd.Series)) and getattr(x, 'shape', ()) == ():
+        return False # x is a scalar, y a container: do not let x == y broadcast over the cells of y
     elif isinstance(x, float) and np.isnan(x):
         return isinstance(y, float) and np.isnan(y)    
     elif isinstance(x, partial):
